@@ -73,6 +73,8 @@ def roundtrip(bounds, blocked, api):
             if api in ('class', 'with-close'):
                 got = []
                 rd = m.VbsReader(f, blocked=blocked)
+                if len(recs) >= 2:
+                    got.append(next(rd))            # a reader that was partly consumed with next() continues in a for loop where it stands
                 for rec in rd:
                     core.FUEL.set(nblocks + 4)
                     got.append(rec)
